@@ -23,4 +23,23 @@ missing = sorted(want - passed)
 print("baseline: %d/%d stable tests pass; %d other passing" % (len(want & passed), len(want), len(passed - want)))
 for m in missing:
     print("MISSING", m)
-sys.exit(0 if not missing else 1)
+# second run: everything that is reachable offline.  In the plain run the four tests that need the network fail and one
+# of them (TestWithHasherWorkflow) panics, which aborts the rest of package merklize, so TestRoots, TestIPFSContext, ...
+# never run there.  They do run with the four skipped, and none of them may fail.
+SKIP = "^(TestMerklizer_BinaryMashaler|TestMerklizer_BinaryMashaler_3|TestMerklizer_BinaryMashaler_WithMT|TestWithHasherWorkflow)$"
+p2 = subprocess.run(["go", "test"] + tags + ["-json", "-vet=off", "-count=1", "-timeout", "25m", "-skip", SKIP, "./..."],
+                    cwd=repo, env=env, stdout=subprocess.PIPE, stderr=subprocess.DEVNULL, text=True)
+failed2, passed2 = set(), 0
+for line in p2.stdout.split("\n"):
+    try:
+        e = json.loads(line)
+    except Exception:
+        continue
+    if e.get("Test") and e.get("Action") == "fail":
+        failed2.add("%s::%s" % (e["Package"], e["Test"]))
+    if e.get("Test") and e.get("Action") == "pass":
+        passed2 += 1
+print("extended run (network tests skipped): %d pass, %d fail" % (passed2, len(failed2)))
+for m in sorted(failed2):
+    print("FAILED", m)
+sys.exit(0 if not missing and not failed2 and p2.returncode == 0 else 1)
